@@ -185,3 +185,11 @@ def _c09_iterable(clause, replay, ctx):
 
     return (clause == "C09:placement_accepted" and in_items(ctx["prog"])
             and "assignment expression cannot be used in a comprehension iterable" in ctx["reg"]["built"])
+
+
+@matcher("internalnames")
+def _internalnames(clause, replay, ctx):
+    """A parameter named like a fixed identifier of the generated entry point."""
+    w = (replay or {}).get("world") or {}
+    bad = {"OVLD", "KWARGS", "TARGS", "MISSING"}
+    return clause.startswith("C03:") and any(bad & (set(m.get("kwn", [])) | set(m.get("names") or [])) for m in w.get("methods", []))
